@@ -21,13 +21,14 @@ def containsC (needle : List Char) : List Char → Bool
   | [] => needle.isEmpty
   | c :: rest => isPrefixC needle (c :: rest) || containsC needle rest
 
-/-- the table has exactly the four algorithm names plus a default clause that returns an
-    error, and the clause for `name` calls `name.New()` -/
+/-- the table has exactly the four algorithm names, the clause for `name` calls `name.New()`,
+    and a default clause - where the switch has one; the fall-back may also follow the switch -
+    returns no hasher -/
 def WiredOK (t : Option (List (String × String))) : Prop :=
   match t with
   | none => True
   | some rows =>
-    rows.map (·.1) = ["md5", "sha1", "sha256", "sha512", "default"] ∧
+    (rows.map (·.1)).filter (· ≠ "default") = ["md5", "sha1", "sha256", "sha512"] ∧
     rows.all (fun (n, body) =>
       if n = "default" then containsC "returnnil".toList body.toList
       else containsC (n ++ ".New()").toList body.toList) = true
